@@ -198,12 +198,32 @@ class Repo:
         modname, fname = qual.rsplit(".", 1)
         m = self.mod(modname)
         if fname not in m.funcs:
+            moved = self._moved(modname, fname)
+            if moved is not None:
+                return moved
             raise AnalysisError("function %s not found (anchor vanished)" % qual)
         return m.funcs[fname]
 
+    def _moved(self, modname, fname, _depth=0):
+        """a function that was moved to another module of the package and is imported back under the same name
+        (`from .validation import _validate_input`) is still the anchor"""
+        m = self.mods.get(modname)
+        if m is None or _depth > 3:
+            return None
+        origin = m.imports.get(fname)
+        if not origin or not origin.startswith("tangermeme."):
+            return None
+        omod, oname = origin[len("tangermeme."):].rsplit(".", 1) if "." in origin[len("tangermeme."):] else (None, None)
+        if omod is None or omod not in self.mods:
+            return None
+        self.consulted.add(omod)
+        if oname in self.mods[omod].funcs:
+            return self.mods[omod].funcs[oname]
+        return self._moved(omod, oname, _depth + 1)
+
     def has_func(self, qual):
         modname, fname = qual.rsplit(".", 1)
-        return modname in self.mods and fname in self.mods[modname].funcs
+        return modname in self.mods and (fname in self.mods[modname].funcs or self._moved(modname, fname) is not None)
 
     def all_funcs(self):
         for m in self.mods.values():
